@@ -794,8 +794,9 @@ def check_C12(ctx, deep=False):
                 "and the move selected must be in the oracle's argmax set; model replay from the order log must agree exactly; "
                 "non-trivial = position with >= 2 legal moves")
     q = ctx.quick
-    n = (60 if q else 1500) * (3 if deep else 1)
-    ops = search_positions(ctx, n, 50, "searchd 3")
+    n = (150 if q else 3000) * (3 if deep else 1)
+    ops = search_positions(ctx, n, 50, "searchd 3", with_rep=False)
+    ops += C.genops("rep", ctx.seed + 3, n * 2, 30, 4, "gen_all", "searchd_3")
     res = C.run_ops(ops)
     t2_search(ctx, res)
     for posr, genr, srs in group_by_pos(res):
